@@ -6,7 +6,7 @@
    Go code (Parameters / Data blocks with their accumulators, the AndX words, the early returns, the
    shared offset cursor, slice expressions that can panic).  Definitions only. *)
 From Coq Require Import List NArith ZArith String Bool.
-From Mant Require Import Prim.R Prim.Bytes Model.SmbTypes Model.SmbBlocks.
+From Mant Require Import Prim.R Prim.Bytes Model.SmbTypes Model.SmbBlocks Model.SmbDialects.
 Import ListNotations.
 Open Scope N_scope.
 
@@ -118,6 +118,22 @@ Definition format_code (fmt : string) : option N :=
   else if String.eqb fmt "types.SMB_STRING_BUFFER_FORMAT_VARIABLE_BLOCK" then Some 5
   else None.
 
+(* SMB_RESUME_KEY { SMB_STRING; Reserved; ServerState [16]; ClientState [4] } and dialects.Dialects { []string } *)
+Definition ints_of (l : list fval) : list N := flat_map (fun y => match y with FInt n => [n] | _ => [] end) l.
+Definition rk_of (x : fval) : option resume_key :=
+  match x with
+  | FStruct [s; FInt r; FStruct srv; FStruct cli] => Some (mk_rk (ss_of s) r (ints_of srv) (ints_of cli))
+  | _ => None
+  end.
+Definition rk_to (r : resume_key) : fval :=
+  FStruct [ss_to (rk_str r); FInt (rk_reserved r); FStruct (map FInt (rk_server r)); FStruct (map FInt (rk_client r))].
+Definition dialects_of (x : fval) : list (list N) :=
+  match x with
+  | FStruct [FStruct l] => flat_map (fun y => match y with FBytes b => [b] | _ => [] end) l
+  | _ => []
+  end.
+Definition dialects_to (ds : list (list N)) : fval := FStruct [FStruct (map FBytes ds)].
+
 (* marshal of a nested value: bytes and the (possibly updated) value *)
 Definition nested_marshal (t : ctype) (fmt : string) (x : fval) : R (list N * fval) :=
   match t with
@@ -155,6 +171,12 @@ Definition nested_marshal (t : ctype) (fmt : string) (x : fval) : R (list N * fv
         | FStruct [FInt a; FInt b] => Ok (nmpipe_marshal [a; b], x)
         | _ => Panic
         end
+      else if String.eqb n "SMB_RESUME_KEY" then
+        match rk_of x with
+        | Some r => let* (bs, r') := resume_key_marshal r in Ok (bs, rk_to r')
+        | None => Panic
+        end
+      else if String.eqb n "Dialects" then Ok (dialects_marshal (dialects_of x), x)
       else Panic
   | _ => Panic
   end.
@@ -174,6 +196,10 @@ Definition nested_unmarshal (t : ctype) (data : list N) : R (fval * N) :=
         let* (a, k) := fileattr_unmarshal data in Ok (FStruct [FInt a], k)
       else if String.eqb n "SMB_NMPIPE_STATUS" then
         let* (vs, k) := nmpipe_unmarshal data in Ok (FStruct [FInt (fv vs 0); FInt (fv vs 1)], k)
+      else if String.eqb n "SMB_RESUME_KEY" then
+        let* (r, k) := resume_key_unmarshal data in Ok (rk_to r, k)
+      else if String.eqb n "Dialects" then
+        let* (ds, k) := dialects_unmarshal data in Ok (dialects_to ds, k)
       else Panic
   | _ => Panic
   end.
@@ -182,7 +208,7 @@ Definition known_nested (t : ctype) : bool :=
   match t with
   | TNamed n => String.eqb n "SMB_STRING" || String.eqb n "OEM_STRING" || String.eqb n "FILETIME"
                 || String.eqb n "SMB_TIME" || String.eqb n "SMB_DATE" || String.eqb n "SMB_FILE_ATTRIBUTES"
-                || String.eqb n "SMB_NMPIPE_STATUS"
+                || String.eqb n "SMB_NMPIPE_STATUS" || String.eqb n "SMB_RESUME_KEY" || String.eqb n "Dialects"
   | _ => false
   end.
 
@@ -383,6 +409,9 @@ Fixpoint zero_of (t : ctype) : fval :=
       else if String.eqb n "SMB_DATE" then FStruct [FInt 0; FInt 0; FInt 0]
       else if String.eqb n "SMB_FILE_ATTRIBUTES" then FStruct [FInt 0]
       else if String.eqb n "SMB_NMPIPE_STATUS" then FStruct [FInt 0; FInt 0]
+      else if String.eqb n "SMB_RESUME_KEY" then
+        FStruct [FStruct [FInt 0; FInt 0; FBytes []]; FInt 0; FStruct (repeat (FInt 0) 16); FStruct (repeat (FInt 0) 4)]
+      else if String.eqb n "Dialects" then FStruct [FStruct []]
       else FStruct []
   end.
 
